@@ -268,7 +268,8 @@ fn history(_ctx: &Ctx, case: u64, r: &mut Rng, rep: &mut Report) {
             }
         }
     }
-    // restore and read-all repair through the possibly rejecting cold store: must warm up first
+    // restore (into an empty and then into a partly filled destination) and read-all repair through the possibly
+    // rejecting cold store: must warm up first
     {
         let detail = json!({"config": h.cfg.desc, "program": program, "cold_rejects_unwarmed_reads": cold_rejects});
         let before_hits = h.hits.lock().unwrap().len();
@@ -281,6 +282,37 @@ fn history(_ctx: &Ctx, case: u64, r: &mut Rng, rep: &mut Report) {
             let snaps = repo.get_all_snapshots().map_err(|e| errstr(&e))?;
             if let Some(s) = snaps.last() {
                 restore_to(&repo, s, &work.join("dest"), &RestoreOptions::default())?;
+                // again, into a destination that now holds part of the content: about half of the files are removed, so
+                // packs are needed for some of their blobs only - each of those packs still has to be warmed up
+                let mut files = Vec::new();
+                let mut stack = vec![work.join("dest")];
+                while let Some(d) = stack.pop() {
+                    for e in std::fs::read_dir(&d).into_iter().flatten().flatten() {
+                        match e.file_type() {
+                            Ok(t) if t.is_dir() => stack.push(e.path()),
+                            Ok(t) if t.is_file() => files.push(e.path()),
+                            _ => {}
+                        }
+                    }
+                }
+                files.sort();
+                let mut rr = Rng::new(case ^ 0x16);
+                let mut removed = 0;
+                for f in &files {
+                    if rr.chance(1, 2) {
+                        if std::fs::remove_file(f).is_ok() {
+                            removed += 1;
+                        }
+                    } else {
+                        // kept, but with another mtime: restore then verifies the content blob by blob and reads nothing
+                        // from the repository for it
+                        let _ = filetime::set_file_mtime(f, filetime::FileTime::from_unix_time(1_500_000_000, 0));
+                    }
+                }
+                if removed > 0 {
+                    h.uni.lock().stores[COLD].warm.clear();
+                    restore_to(&repo, s, &work.join("dest"), &RestoreOptions::default()).map_err(|e| format!("second restore into a partly filled destination: {e}"))?;
+                }
             }
             Ok(())
         });
